@@ -246,7 +246,7 @@ Lemma step_inv s m sc o :
   let '(m1, v) := mon m o out in
   excused v (excuses (scope sc o)) = true /\ Inv s1 m1 (scope sc o).
 Proof.
-  intros I. destruct o as [h|[r|]|p|k|c|ks]; simpl.
+  intros I. destruct o as [h|[r|]|p|k|c|p|ks]; simpl.
   - (* Request *)
     destruct (find_hash h (reqs s)) as [c|] eqn:E; simpl.
     + apply find_hash_In in E. apply (inv_reqs _ _ _ I) in E. apply mem_pair_In in E.
@@ -301,6 +301,22 @@ Proof.
       destruct (assoc_N c (firstn notify_cache_size (m_notifs m))) as [q|] eqn:Eq; [|reflexivity].
       unfold excuses. simpl. destruct (oos sc) eqn:Eo; [reflexivity|]. exfalso.
       apply assoc_N_In in Eq. apply (inv_recent _ _ _ I Eo) in Eq. exact (Hr q Eq).
+  - (* NotifyProbe: as Notify; the lookup of the newest entry changes nothing *)
+    destruct (lru_put (N.succ (ctr s)) p (lru s) (space s)) as [l sp] eqn:E. simpl.
+    rewrite (fresh_ok s m sc I). rewrite !N.eqb_refl. simpl. split; [reflexivity|].
+    pose proof (lru_put_sub (N.succ (ctr s)) p (lru s) (space s) (m_notifs m) (inv_sub _ _ _ I)) as Hsub.
+    rewrite E in Hsub. simpl in Hsub.
+    destruct I as [I1 I2 I3 I4 I5 I6 I7 I8]. constructor; simpl; auto.
+    + intros c [<-|Hc]; [lia | specialize (I2 _ Hc); lia].
+    + split; [lia | exact I4].
+    + intros Hl. destruct (I6 Hl) as [Hlru Hsp].
+      pose proof (lru_put_exact (N.succ (ctr s)) p (m_notifs m) (N.succ (ctr s)) I4 ltac:(lia)) as Hex.
+      cbv zeta in Hex. rewrite <- Hlru, <- Hsp, E in Hex. inversion Hex; subst. split; reflexivity.
+    + intros Ho. apply orb_false_iff in Ho. destruct Ho as [Ho Hl].
+      destruct (I6 Hl) as [Hlru Hsp].
+      pose proof (lru_put_exact (N.succ (ctr s)) p (m_notifs m) (N.succ (ctr s)) I4 ltac:(lia)) as Hex.
+      cbv zeta in Hex. rewrite <- Hlru, <- Hsp, E in Hex. inversion Hex; subst. tauto.
+    + intros Hl. rewrite Hl, (I8 Hl). reflexivity.
   - (* Burst *)
     destruct (burst_ok ks (ctr s) (m_last m) (m_seen m)) as [sn [Hm Hsn]].
     + rewrite (inv_last _ _ _ I). lia.
@@ -353,7 +369,7 @@ Lemma step_written s o :
   Forall (fun x => (ctr s < x <= ctr s1)%N) (written_of out) /\ (ctr s <= ctr s1)%N.
 Proof.
   assert (H1 : forall c : N, StronglySorted N.lt [c]) by (intros c; constructor; constructor).
-  destruct o as [h|[r|]|p|k|c|ks]; simpl.
+  destruct o as [h|[r|]|p|k|c|p|ks]; simpl.
   - destruct (find_hash h (reqs s)); simpl.
     + repeat split; try constructor; lia.
     + repeat split; [apply H1 | constructor; [lia | constructor] | lia].
@@ -364,6 +380,8 @@ Proof.
   - repeat split; [apply H1 | constructor; [lia | constructor] | lia].
   - destruct (lru_get c (lru s)) as [r l]. simpl.
     destruct r; simpl; repeat split; try constructor; lia.
+  - destruct (lru_put (N.succ (ctr s)) p (lru s) (space s)). simpl.
+    repeat split; [apply H1 | constructor; [lia | constructor] | lia].
   - destruct (burst_written ks (ctr s)) as [Hs Hf]. repeat split; [exact Hs | exact Hf | apply burst_ctr_ge].
 Qed.
 
@@ -444,11 +462,12 @@ Lemma step_bounded s o :
   (length (reqs s) <= S request_cache_limit)%nat ->
   (length (reqs (fst (step s o))) <= S request_cache_limit)%nat.
 Proof.
-  intros H. destruct o as [h|[r|]|p|k|c|ks]; simpl; try exact H.
+  intros H. destruct o as [h|[r|]|p|k|c|p|ks]; simpl; try exact H.
   - destruct (find_hash h (reqs s)); simpl; [exact H | apply add_req_length; exact H].
   - pose proof (length_remove_N_le r (reqs s)). lia.
   - destruct (lru_put (N.succ (ctr s)) p (lru s) (space s)). simpl. exact H.
   - destruct (lru_get c (lru s)). simpl. exact H.
+  - destruct (lru_put (N.succ (ctr s)) p (lru s) (space s)). simpl. exact H.
 Qed.
 
 Theorem reqs_bounded ops : (length (reqs (fst (run init ops))) <= S request_cache_limit)%nat.
